@@ -2,6 +2,8 @@
 # correspondence streams (Go test functions in /verif/harness), claimed level.
 PACKET_STREAM = {"name": "packet", "test": "TestStreamPacket", "cases": 8, "ops": 70, "thorough_scale": 15}
 
+PACKET_DEEP = {"name": "packetdeep", "test": "TestStreamPacket", "cases": 5, "ops": 0, "thorough_scale": 15, "env": {"VERIF_PROFILE": "deep"}}
+
 COMMON_ASSUME = [
     "Cosmos SDK BaseApp discards the writes of a failing message (modelled by `deliver`)",
     "light-client verification at the ideal boundary: a client's recorded state at a height is the counterparty's real provable store (justified by C07/C08/C17/C18 and exercised with real proofs)",
@@ -9,7 +11,7 @@ COMMON_ASSUME = [
 ]
 
 def packet_prop(expl, extra_assume=()):
-    return {"level": "proof", "streams": [PACKET_STREAM], "assumptions": COMMON_ASSUME + list(extra_assume), "explanation": expl}
+    return {"level": "proof", "streams": [PACKET_STREAM, PACKET_DEEP], "assumptions": COMMON_ASSUME + list(extra_assume), "explanation": expl}
 
 PROPS = {
     "C01": {
